@@ -1,10 +1,12 @@
 """Engine-P obligations: ordering / propagation discipline of the I/O orchestration, decided by
 bounded model checking of the MIR control/event structure (pathsmt.bmc)."""
+import os
 import re
 
 from mirsmt import pathsmt
 
-L_DEFAULT = 120
+# path bound in basic-block steps (of the contracted CFG): quick 120, thorough 240
+L_DEFAULT = 240 if os.environ.get("VERIF_TIER_RUN") == "thorough" else 120
 
 
 class PQuery:
@@ -373,11 +375,143 @@ def pre_meta_no_ht_write(ctx):
         raise Unmatched("post_meta no longer writes the HT (event regex stale)")
     qs.append(PQuery("bitbox::SyncController::post_meta: HT write is reachable (event regex witness)", cfg,
                      {bb: [("bad", None)] for bb in hit}, [], {}, expect="sat"))
-    # post_meta: write_ht (incl. its fsync) precedes truncate_wal
-    table = [(r"write_ht", None, [("set", "ht_written")]), (r"truncate_wal", None, [("bad_unless", "ht_written")])]
+    # wherever the post-meta code truncates the WAL (post_meta or write_ht itself), the hash-table
+    # writes must be complete and fsynced first: `write_ht` returning (contract: writeout_fsync) or
+    # an explicit fsync(ht) must precede truncate_wal
+    n_trunc = 0
+    for rx, nm in [(r"^bitbox::.*::post_meta$", "bitbox::SyncController::post_meta"), (r"^write_ht$", "write_ht")]:
+        g = _fn(prog, rx, "bitbox/")
+        gcfg = pathsmt.Cfg(g)
+        table = [(r"write_ht", None, [("set", "ht_synced")]),
+                 (r"File::sync_all|File::sync_data", r"ht_fd", [("set", "ht_synced")]),
+                 (r"truncate_wal", None, [("bad_unless", "ht_synced")])]
+        ops, hits = _events(gcfg, table)
+        n_trunc += len(hits[2])
+        qs.append(PQuery("%s: the WAL is truncated only after the HT writes completed and were fsynced" % nm, gcfg, ops, ["ht_synced"], {},
+                         scenario="c04_commit_order", key="%s:truncate_wal before fsync(ht)" % nm))
+        enc.add("%s @ nomt/src/bitbox" % nm)
+    if n_trunc == 0:
+        raise Unmatched("no truncate_wal in post_meta / write_ht (event regex stale)")
+    return qs, enc
+
+
+def open_order(ctx):
+    """store::Store::open: the directory lock is taken before the meta page is read; the meta is
+    validated before the value tree, the merkle store (which runs WAL recovery) or the rollback log
+    are opened from it."""
+    prog = ctx.program("nomt")
+    f = _fn(prog, r"^store::.*>::open$", "store/mod.rs")
+    cfg = pathsmt.Cfg(f)
+    table = [
+        (r"Flock::lock|^create$|store::create", None, [("set", "locked")]),
+        (r"Meta::read", None, [("bad_unless", "locked"), ("set", "meta_read")]),
+        (r"Meta::validate", None, [("bad_unless", "meta_read"), ("set", "validated")]),
+        (r"Tree::open", None, [("bad_unless", "validated")]),
+        (r"bitbox::DB::open|DB::open", None, [("bad_unless", "validated")]),
+    ]
     ops, hits = _events(cfg, table)
-    _require(table, hits, "post_meta")
-    qs.append(PQuery("bitbox::SyncController::post_meta: the WAL is truncated only after write_ht returned", cfg, ops, ["ht_written"], {},
-                     scenario="c04_commit_order", key="post_meta:truncate before write_ht"))
-    enc.add("bitbox::SyncController::post_meta @ nomt/src/bitbox/mod.rs")
+    _require(table, hits, "Store::open")
+    flags = ["locked", "meta_read", "validated"]
+    qs = [PQuery("Store::open: lock -> Meta::read -> validate -> Tree::open / DB::open", cfg, ops, flags, {}, key="Store::open:order"),
+          PQuery("Store::open: DB::open is reachable", cfg, {bb: [("bad", None)] for bb in hits[4]}, [], {}, expect="sat")]
+    return qs, {"store::Store::open @ nomt/src/store/mod.rs"}
+
+
+def open_no_swallow(ctx):
+    """store::Store::open: no fallible value is dropped uninspected (many values: thorough tier)."""
+    prog = ctx.program("nomt")
+    f = _fn(prog, r"^store::.*>::open$", "store/mod.rs")
+    cfg = pathsmt.Cfg(f)
+    ops_sw, flags_sw, defs = _swallow_ops(cfg)
+    if not defs:
+        raise Unmatched("no fallible value in Store::open")
+    rets = [bb for bb in cfg.order if cfg.blocks[bb].is_return]
+    return [PMulti("Store::open: no fallible value is dropped uninspected", cfg, ops_sw, flags_sw, {}, key="Store::open:swallowed result"),
+            PQuery("Store::open: return is reachable", cfg, {bb: [("bad", None)] for bb in rets}, [], {}, expect="sat")], \
+        {"store::Store::open @ nomt/src/store/mod.rs"}
+
+
+def beatree_sync(ctx):
+    """beatree::SyncController: the begin_sync task issues fsync(bbn) and fsync(ln) after the page
+    writes were prepared and before it reports Ok; wait_pre_meta joins the task and waits for both
+    fsyncs (propagating each error) before it returns the new meta data; nothing fallible is dropped."""
+    prog = ctx.program("nomt")
+    qs, enc = [], set()
+    f = _fn(prog, r"^beatree::.*::begin_sync::\{closure#0\}$", "beatree/mod.rs")
+    cfg = pathsmt.Cfg(f)
+    table = [
+        (r"prepare_sync", None, [("set", "prepared")]),
+        (r"Fsyncer::fsync", r"bbn_fsync", [("bad_unless", "prepared"), ("set", "bbn")]),
+        (r"Fsyncer::fsync", r"ln_fsync", [("bad_unless", "prepared"), ("set", "ln")]),
+    ]
+    ops, hits = _events(cfg, table)
+    _require(table, hits, "beatree begin_sync task")
+    oks = _ok_blocks(cfg)
+    if not oks:
+        raise Unmatched("no Ok block in beatree begin_sync task")
+    for bb in oks:
+        ops.setdefault(bb, []).extend([("bad_unless", "bbn"), ("bad_unless", "ln")])
+    qs.append(PQuery("beatree begin_sync task: prepare_sync -> fsync(bbn), fsync(ln) issued before Ok", cfg, ops,
+                     ["prepared", "bbn", "ln"], {}, scenario="c04_commit_order", key="beatree begin_sync:Ok without fsync"))
+    qs.append(PQuery("beatree begin_sync task: Ok is reachable", cfg, {bb: [("bad", None)] for bb in oks}, [], {}, expect="sat"))
+    o2, fl2, defs = _swallow_ops(cfg)
+    if defs:
+        qs.append(PMulti("beatree begin_sync task: no fallible value is dropped uninspected", cfg, o2, fl2, {}, key="beatree begin_sync:swallowed result"))
+    enc.add("beatree::SyncController::begin_sync task @ nomt/src/beatree/mod.rs")
+
+    f = _fn(prog, r"^beatree::.*::wait_pre_meta$", "beatree/mod.rs")
+    cfg = pathsmt.Cfg(f)
+    table = [
+        (r"join_task", None, [("set", "joined")]),
+        (r"Fsyncer::wait", r"bbn_fsync", [("bad_unless", "joined"), ("set", "w_bbn")]),
+        (r"Fsyncer::wait", r"ln_fsync", [("bad_unless", "joined"), ("set", "w_ln")]),
+    ]
+    ops, hits = _events(cfg, table)
+    _require(table, hits, "beatree wait_pre_meta")
+    oks = _ok_blocks(cfg)
+    if not oks:
+        raise Unmatched("no Ok block in beatree wait_pre_meta")
+    for bb in oks:
+        ops.setdefault(bb, []).extend([("bad_unless", "w_bbn"), ("bad_unless", "w_ln")])
+    qs.append(PQuery("beatree wait_pre_meta: join -> wait(bbn fsync), wait(ln fsync) before Ok", cfg, ops, ["joined", "w_bbn", "w_ln"], {},
+                     key="beatree wait_pre_meta:Ok without waiting for fsync"))
+    qs.append(PQuery("beatree wait_pre_meta: Ok is reachable", cfg, {bb: [("bad", None)] for bb in oks}, [], {}, expect="sat"))
+    o2, fl2, defs = _swallow_ops(cfg)
+    if not defs:
+        raise Unmatched("no fallible value in beatree wait_pre_meta")
+    qs.append(PMulti("beatree wait_pre_meta: no fallible value is dropped uninspected", cfg, o2, fl2, {}, key="beatree wait_pre_meta:swallowed result"))
+    enc.add("beatree::SyncController::wait_pre_meta @ nomt/src/beatree/mod.rs")
+    return qs, enc
+
+
+def rollback_sync(ctx):
+    """rollback: nothing is pruned or truncated from the rollback log before the switch-over
+    (begin_sync / writeout_start issue no prune event); pruning lives in writeout_end, whose errors
+    are propagated."""
+    prog = ctx.program("nomt")
+    qs, enc = [], set()
+    PRUNE = r"prune_oldest|prune_recent|remove_file|set_len|truncate"
+    for rx, nm in [(r"^rollback::.*::begin_sync$", "rollback::SyncController::begin_sync"),
+                   (r"^rollback::.*::writeout_start$", "rollback::Rollback::writeout_start")]:
+        f = _fn(prog, rx, "rollback/mod.rs")
+        cfg = pathsmt.Cfg(f)
+        bad = [bb for bb in cfg.order if cfg.blocks[bb].call and re.search(PRUNE, cfg.blocks[bb].call[1])]
+        rets = [bb for bb in cfg.order if cfg.blocks[bb].is_return]
+        qs.append(PQuery("%s: prunes / truncates nothing" % nm, cfg, {bb: [("bad", None)] for bb in bad}, [], {},
+                         key="%s:prune before the meta switch-over" % nm))
+        qs.append(PQuery("%s: return is reachable" % nm, cfg, {bb: [("bad", None)] for bb in rets}, [], {}, expect="sat"))
+        enc.add("%s @ nomt/src/rollback/mod.rs" % nm)
+    f = _fn(prog, r"^rollback::.*::writeout_end$", "rollback/mod.rs")
+    cfg = pathsmt.Cfg(f)
+    hit = [bb for bb in cfg.order if cfg.blocks[bb].call and re.search(r"prune_oldest|prune_recent", cfg.blocks[bb].call[1])]
+    if len(hit) < 2:
+        raise Unmatched("writeout_end no longer prunes (event regex stale)")
+    qs.append(PQuery("rollback::Rollback::writeout_end: pruning is reachable (event regex witness)", cfg,
+                     {bb: [("bad", None)] for bb in hit}, [], {}, expect="sat"))
+    o2, fl2, defs = _swallow_ops(cfg)
+    if not defs:
+        raise Unmatched("no fallible value in writeout_end")
+    qs.append(PMulti("rollback::Rollback::writeout_end: no fallible value is dropped uninspected", cfg, o2, fl2, {},
+                     key="writeout_end:swallowed result"))
+    enc.add("rollback::Rollback::writeout_end @ nomt/src/rollback/mod.rs")
     return qs, enc
